@@ -117,12 +117,16 @@ func marshalers() map[string]func() store.Marshaler {
 	}
 	pm := store.ProtobufMarshaler{}
 	return map[string]func() store.Marshaler{
-		"protobuf":          func() store.Marshaler { return pm },
-		"zstd(min=0)":       func() store.Marshaler { return compression.NewMarshaler(pm, compression.ZStd(), 0) },
-		"zstd(min=200)":     func() store.Marshaler { return compression.NewMarshaler(pm, compression.ZStd(), 200) },
-		"aes":               func() store.Marshaler { return encryption.NewMarshaler(pm, ciph()) },
-		"zstd(aes)":         func() store.Marshaler { return compression.NewMarshaler(encryption.NewMarshaler(pm, ciph()), compression.ZStd(), 0) },
-		"aes(zstd(min=64))": func() store.Marshaler { return encryption.NewMarshaler(compression.NewMarshaler(pm, compression.ZStd(), 64), ciph()) },
+		"protobuf":      func() store.Marshaler { return pm },
+		"zstd(min=0)":   func() store.Marshaler { return compression.NewMarshaler(pm, compression.ZStd(), 0) },
+		"zstd(min=200)": func() store.Marshaler { return compression.NewMarshaler(pm, compression.ZStd(), 200) },
+		"aes":           func() store.Marshaler { return encryption.NewMarshaler(pm, ciph()) },
+		"zstd(aes)": func() store.Marshaler {
+			return compression.NewMarshaler(encryption.NewMarshaler(pm, ciph()), compression.ZStd(), 0)
+		},
+		"aes(zstd(min=64))": func() store.Marshaler {
+			return encryption.NewMarshaler(compression.NewMarshaler(pm, compression.ZStd(), 64), ciph())
+		},
 	}
 }
 
@@ -668,11 +672,12 @@ func valid(h []int) bool {
 
 func main() {
 	explore.Main(explore.Config{
-		Property:  "C10",
-		Level:     "fault_enumeration",
-		Technique: "exhaustive enumeration of crash images (before every file write of the real bbolt write path and at every page boundary inside multi-page writes) reopened with the real code and compared with the model of acknowledged operations; exhaustive enumeration of backing-store fault positions with watchers attached",
-		Rule:      "crash: every write boundary and page-partial write of each history x marshaler stacking; faults: every Put/Destroy position x {1,2} consecutive failures, every Load position; non-trivial = distinct crash images / fault positions",
-		Assume:    []string{"process crash: completed pwrite calls persist (power-loss reordering of unsynced blocks is outside the property)", "a crash while bbolt creates the empty database file precedes every operation of this repository and is out of scope", "a multi-page pwrite can be cut at 4096-byte boundaries"},
-		Extra:     map[string]any{"explanation": "states = crash images / fault positions; transitions = file writes observed at bbolt's db.ops.writeAt seam"},
+		Property:     "C10",
+		RequireShims: true,
+		Level:        "fault_enumeration",
+		Technique:    "exhaustive enumeration of crash images (before every file write of the real bbolt write path and at every page boundary inside multi-page writes) reopened with the real code and compared with the model of acknowledged operations; exhaustive enumeration of backing-store fault positions with watchers attached",
+		Rule:         "crash: every write boundary and page-partial write of each history x marshaler stacking; faults: every Put/Destroy position x {1,2} consecutive failures, every Load position; non-trivial = distinct crash images / fault positions",
+		Assume:       []string{"process crash: completed pwrite calls persist (power-loss reordering of unsynced blocks is outside the property)", "a crash while bbolt creates the empty database file precedes every operation of this repository and is out of scope", "a multi-page pwrite can be cut at 4096-byte boundaries"},
+		Extra:        map[string]any{"explanation": "states = crash images / fault positions; transitions = file writes observed at bbolt's db.ops.writeAt seam"},
 	}, build)
 }
